@@ -55,6 +55,10 @@ SHAPES = [
     "select * from t where " + " and ".join(f"a{i} = {i}" for i in range(300)), "select " + " + ".join(["x"] * 300) + " from t",
     "select * from t where " + " or ".join(f"a{i} > {i}" for i in range(250)),
     "select native_query from int1 (select 1)", "select * from int1 (select * from t where a = 'x')",
+    # lists of one item, parenthesised scalars, nested parentheses
+    "select a from t where b in (1)", "select a from t where b not in ('x')", "select a from t where b in (c + 1) or d in (f(x))", "select a from t where b in ((1))",
+    "select (a) from t where ((b)) = (1)", "select a from t where b in (1, (2), ((3)))", "delete from t where a in (1)", "update t set a = (1) where b in (2)",
+    "select a from t where (b, c) in ((1, 2))", "select a from t where b in (select 1)", "select a from t where b = any (select 1)",
     # functions with a FROM-separated argument, in several positions and more than once per statement
     "select substring(a from 2) from t", "select trim(a from b) from t", "select f(x from y) from t", "select position('x' from a) from t",
     "select substring(a from 2), substring(b from 3) from t where substring(c from 1) = 'x'", "select overlay(a from 2) as o, cast(b as foo) from t",
